@@ -28,7 +28,7 @@ ASSUMPTIONS = [
     "two blocks are equally long the statement is silent and the maximum of either sliding family is accepted",
     "values agree to 1e-9 relative; composition-only is judged to 1e-12 relative",
 ]
-REQUIRED = {"all": ["salted_objects", "regime:uncharged", "regime:one_charge_type", "regime:no_neutrals", "regime:mixed_lt18_neutrals",
+REQUIRED = {"all": ["salted_objects", "sparse_minority_long_majority", "regime:uncharged", "regime:one_charge_type", "regime:no_neutrals", "regime:mixed_lt18_neutrals",
                     "regime:mixed_ge18_neutrals", "boundary_n0_17", "boundary_n0_18", "tie_block_lengths",
                     "permutant_validated", "permutant_after_value_same_object", "segregated_presentations"]}
 NMAX = {"quick": 24, "thorough": 40}
@@ -46,6 +46,14 @@ def cases(tier, seed):
         for c in gen.compositions(N):
             yield {"c": list(c)}
     rng = gen.sub_rng(seed, ID, "random")
+    # a few residues of one sign in front of a long block of the other, with 0 .. 40 neutral residues
+    for c in [(90, 1, 18), (1, 85, 19), (2, 100, 18), (120, 1, 22), (1, 150, 30), (1, 70, 17), (66, 1, 18)]:
+        yield {"c": list(c), "sparse": 1}
+    for i in range(NRANDOM[tier] // 12):
+        minority = rng.choice([1, 1, 2, 3])
+        majority = gen.loglen(rng, 10, 170)
+        z = rng.choice([0, rng.randint(1, 17), 18, rng.randint(18, 40)])
+        yield {"c": [minority, majority, z] if rng.random() < 0.5 else [majority, minority, z], "sparse": 1}
     for i in range(NRANDOM[tier]):
         N = gen.loglen(rng, 21, 300 if i % 3 == 0 else 90)
         kind = rng.random()
@@ -72,6 +80,8 @@ def judge(case, rep, S):
         rep.cnt("boundary_n0_17")
     if z == 18 and p and n:
         rep.cnt("boundary_n0_18")
+    if case.get("sparse"):
+        rep.cnt("sparse_minority_long_majority")
     fams = M.families(p, n, z)
     if len(fams) > 1:
         rep.cnt("tie_block_lengths")
